@@ -18,7 +18,9 @@ OptWeak3  == {Opt(1, FALSE, FALSE, FALSE), Opt(1, FALSE, TRUE, FALSE), Opt(2, FA
 OptErr    == {Opt(1, FALSE, FALSE, FALSE), Opt(1, TRUE, FALSE, TRUE)}
 AutoTwo   == {[prio |-> 1, weak |-> TRUE], [prio |-> 2, weak |-> FALSE]}
 OptPaths  == {Opt(1, FALSE, FALSE, FALSE), Opt(2, TRUE, FALSE, FALSE)}
+OptPlain  == {Opt(1, FALSE, FALSE, FALSE)}
 AutoNone  == {}
+AutoBulk  == {[prio |-> 1, weak |-> FALSE]}
 AutoAll   == {[prio |-> p, weak |-> w] : p \in {1, 2}, w \in BOOLEAN}
 RVplain   == {"none", "halt"}
 RVremove  == {"none", "false", "remove", "haltremove", "true"}
